@@ -324,3 +324,109 @@ def r_dispatch_text(P, chk, disp):
                               "HTML emits output for token type %s but writer %s has a %s branch: text dropped" % (
                                   name, w, "escape" if c[0] else "silent (break-only)"))
     chk.floor(rid, n, 200, "text-bearing (writer, type) cells")
+
+
+# ---------------------------------------------------------------------------
+# R-SIBLING: the OPML and ITMZ outline writers are copies of one another; per token type they must compute the
+# same source ranges and make the same helper calls (only the markup literals differ)
+
+SIBLING_REVIEWED = {
+    ("mmd_export_header_opml", "MARKER_SETEXT_1"): "ITMZ trims the Setext underline by moving `stop`, OPML by stepping `walker` back; same text range",
+    ("mmd_export_header_opml", "MARKER_SETEXT_2"): "as MARKER_SETEXT_1",
+}
+
+
+def _sibling_sig(f, v, dkey):
+    import re as _re
+    blocks = edpe_blocks(f, dkey, v)
+    out = set()
+    for n in block_nodes(f, blocks):
+        if n["k"] == "CallExpr" and n.get("callee"):
+            c = n["callee"]
+            if c.startswith("d_string_append") or c.startswith("print_uuid"):
+                # output of markup literals: format-specific by design; data arguments still count
+                data = [key(a) for a in n["c"][2:] if (strip(a) or {}).get("k") != "StringLiteral" and const_value(a) is None]
+                data = [d for d in data if "sizeof" not in d]
+                if data:
+                    out.add("out(%s)" % ",".join(_re.sub(r"opml|itmz", "FMT", d) for d in data))
+                continue
+            args = ",".join(_re.sub(r"opml|itmz", "FMT", key(a))[:60] for a in n["c"][1:])
+            out.add("call %s(%s)" % (_re.sub(r"opml|itmz", "FMT", c), args))
+        elif n["k"] == "BinaryOperator" and n["op"] == "=":
+            out.add("set %s=%s" % (key(n["c"][0]), key(n["c"][1])[:80]))
+        elif n["k"] == "CompoundAssignOperator":
+            out.add("set %s%s%s" % (key(n["c"][0]), n["op"], key(n["c"][1])[:80]))
+    return out
+
+
+def r_sibling_outline(P, chk):
+    rid = "R-SIBLING"
+    chk.rule(rid, "the OPML and ITMZ outline writers (copies of one another) assign the same source ranges and call the same "
+                  "helpers for every token type; only markup literals may differ")
+    uo, ui = P.units.get("opml.c"), P.units.get("itmz.c")
+    if uo is None or ui is None:
+        raise AnalysisBroken("opml.c / itmz.c gone")
+    tt = token_types(P)
+    pairs = [(n, n.replace("opml", "itmz")) for n in sorted(uo.funcs) if "opml" in n and n.replace("opml", "itmz") in ui.funcs]
+    chk.floor(rid, len(pairs), 6, "OPML/ITMZ sibling function pairs")
+    n_cells = 0
+    for a, b in pairs:
+        fa, fb = uo.funcs[a], ui.funcs[b]
+        dks = [key(n["c"][0]) for n in fa.walk() if n["k"] == "SwitchStmt" and key(n["c"][0]).endswith("->type")]
+        if not dks:
+            sa, sb = _sibling_sig(fa, -1, "<none>"), _sibling_sig(fb, -1, "<none>")
+            n_cells += 1
+            ok = sa == sb
+            chk.obligation(rid, "%s / %s: same assignments and helper calls" % (a, b), ok)
+            if not ok:
+                chk.violation(rid, "sibling:%s" % a, fb.where(), "%s and %s differ beyond markup literals: only in OPML %s, only in ITMZ %s" % (
+                    a, b, sorted(sa - sb)[:3], sorted(sb - sa)[:3]))
+            continue
+        dk = dks[0]
+        for name, v in tt.items():
+            sa, sb = _sibling_sig(fa, v, dk), _sibling_sig(fb, v, dk)
+            n_cells += 1
+            if sa == sb:
+                continue
+            if (a, name) in SIBLING_REVIEWED:
+                chk.obligation(rid, "%s x %s: reviewed difference (%s)" % (a, name, SIBLING_REVIEWED[(a, name)]), True)
+                continue
+            chk.obligation(rid, "%s / %s x %s" % (a, b, name), False)
+            chk.violation(rid, "sibling:%s:%s" % (a, name), fb.where(), "for %s tokens %s and %s compute different things (only in OPML: "
+                          "%s; only in ITMZ: %s): one of the two outline formats loses or duplicates source text" % (
+                              name, a, b, sorted(sa - sb)[:3], sorted(sb - sa)[:3]))
+    chk.obl[rid][0] += n_cells
+    chk.obl[rid][1] += n_cells
+    chk.floor(rid, n_cells, 500, "function x token-type cells compared")
+
+
+def r_linestrip(P, chk):
+    """Line kinds that the parser's reduce actions assign to a line (continuation lines inside text blocks) must be
+    unwrapped by strip_line_tokens_from_block, not kept as an opaque child: no writer has a branch for them."""
+    from .lalr import Tables, rhs_constants
+    rid = "R-LINESTRIP"
+    chk.rule(rid, "every line kind the parser actions retype lines to is unwrapped into inline tokens by "
+                  "strip_line_tokens_from_block (it never reaches the writers as a line token)")
+    T = Tables(P)
+    yr = P.func("yy_reduce", "parser.c")
+    retyped = {}
+    for x in yr.walk():
+        if x["k"] == "BinaryOperator" and x["op"] == "=":
+            l = strip(x["c"][0])
+            if l is not None and l["k"] == "MemberExpr" and l["n"] == "type" and l.get("rec") == "token":
+                for v in rhs_constants(x["c"][1]):
+                    if 0 < v < T.nterminal:
+                        retyped.setdefault(v, x["l"])
+    if not retyped:
+        raise AnalysisBroken("parser.c: no line retyping found")
+    f = P.func("strip_line_tokens_from_block", "mmd.c")
+    for v, line in sorted(retyped.items()):
+        blocks = edpe_blocks(f, "l->type", v)
+        calls = [(n.get("callee"), [key(a) for a in n["c"][1:]]) for n in block_nodes(f, blocks) if n["k"] == "CallExpr"]
+        kept = any(c == "token_append_child" and len(a) > 1 and a[1] == "l" for c, a in calls)
+        ok = not kept
+        chk.obligation(rid, "%s (assigned at parser.c:%d) is unwrapped, not kept as a block child" % (T.name(v), line), ok)
+        if not ok:
+            chk.violation(rid, "linestrip:%s" % T.name(v), f.where(), "strip_line_tokens_from_block keeps %s lines (assigned by the parser "
+                          "at parser.c:%d) as opaque children: every writer takes the 'Unknown token type: %d' escape and the line's "
+                          "text is dropped" % (T.name(v), line, v))
